@@ -22,7 +22,7 @@ the pair *(literal standing for `g`, set of definitional clauses)*, or the strin
   set-of-sets.
 * `convert` describes the code *after* the F33 repair (a clause all of whose literals were
   removed by the top-level clean-up makes the CNF false instead of being dropped) and `enc` the
-  code after the F36 repair (`walk_or` negates with `Not(a).simplify()` like every other rule;
+  code after the F50 repair (`walk_or` negates with `Not(a).simplify()` like every other rule;
   it used `Not(a)`, which leaves literals such as `! True` in the clauses).
 -/
 namespace PySMT.CNF
